@@ -4,6 +4,11 @@
 
 mod c01;
 mod c32;
+mod dbs;
+mod fam;
+mod oracle;
+mod q;
+mod shard;
 
 fn usage() -> ! {
     eprintln!("usage: sqlspacecheck check <C01|C32> <quick|thorough> | sqlspacecheck replay <path>");
@@ -47,6 +52,17 @@ fn main() {
     if std::env::var("PARALLEL_THRESHOLD").is_err() {
         std::env::set_var("PARALLEL_THRESHOLD", "max");
     }
+    // Every SelectExecutor owns a zero-initialised 10 MB arena. glibc raises its mmap threshold
+    // dynamically after the first such block is freed, serves the next ones from the heap and then has
+    // to memset 10 MB per executor (views, CTEs and subqueries build one each): ~1 ms per statement.
+    // A fixed threshold keeps these blocks on mmap (fresh zero pages, no memset). Allocator tuning of
+    // the harness process only; nothing the engine computes depends on it.
+    unsafe {
+        libc::mallopt(libc::M_MMAP_THRESHOLD, 1 << 20);
+        // and do not give the heap top back to the kernel after every free (brk per statement)
+        libc::mallopt(libc::M_TRIM_THRESHOLD, 512 << 20);
+        libc::mallopt(libc::M_TOP_PAD, 16 << 20);
+    }
     vcore::exec::silence_panics();
     let code = match args[1].as_str() {
         "check" if args.len() >= 4 => match args[2].as_str() {
@@ -58,6 +74,14 @@ fn main() {
             }
         },
         "replay" if args.len() >= 3 => replay(&args[2]),
+        "shard" if args.len() >= 6 => {
+            let (i, k) = (args[4].parse::<usize>().unwrap_or(0), args[5].parse::<usize>().unwrap_or(1).max(1));
+            match args[2].as_str() {
+                "C01" => c01::shard_main(&args[3], i, k),
+                "C32" => c32::shard_main(&args[3], i, k),
+                _ => 2,
+            }
+        }
         _ => usage(),
     };
     std::process::exit(code);
